@@ -106,6 +106,13 @@ CLAIMS["C02"] = (
     "DESIGN.md §2 C02",
 )
 
+CLAIMS["C11"] = (
+    "table validation against an independent copy of the 5G reliability sequence (+ permutation / dominance), closed forms and truth tables of the SC f/g/partial-sum functions, frozen-value selector agreement (sibling rule + polarity engine)",
+    "Polar codes: kernel literal and number of Kronecker steps; the reliability table file is parsed by the checker and must be a permutation of 0..1023, respect bitwise-subset dominance and equal the TS 38.212 sequence entry by entry; the frozen set is the first N-k ranked positions below N and user masks are validated; encoder, SC leaf and polar-BP initialisation agree on the frozen value (BP: +clip for a frozen 0, by the library's LLR polarity); the SC recursion has the textbook shape (f by regime, g = y2 + (1-2x) y1 un-saturated, partial sums (x1 xor x2, x2), consistent half / even-odd splits, helper closed forms). Equality of the XOR network with the Kronecker matrix, the BP schedule and SC decisions as values are not decided.",
+    "Trusted: /verif/fixtures/ts38212_polar_sequence.txt (an independent copy of TS 38.212 Table 5.3.1.2-1; it agrees entry by entry with the repository's table on the pinned tree), recognisers in props/c11.py.",
+    "DESIGN.md §2 C11",
+)
+
 NOT_APPLICABLE = {
     "C09": "conjunction at run time of C02/C05/C06/C10/C11/C15 over component pairings and adversarial channels; its structural preconditions (stage order, LLR polarity, label agreement, block framing) are decided under C17, C15, C05, C20 - no additional clause is visible in the shape of the code (DESIGN.md §2 C09)",
 }
